@@ -60,14 +60,17 @@ def rawFlow (pts : List PType) (fs : List XFlow) (f : XFlow) : Option Flow :=
     | .ok rq, .ok rs => some ⟨f.name, rq, rs⟩
     | _, _ => none
   else
-    match buildX pts fs f.name .req buildFuel f.name {} f.req, buildX pts fs f.name .res buildFuel f.name {} f.res with
+    match buildX pts fs f.name .req (buildFuel fs) [] f.name {} f.req, buildX pts fs f.name .res (buildFuel fs) [] f.name {} f.res with
     | .ok s1, .ok s2 => some ⟨f.name, s1.g, s2.g⟩
     | _, _ => none
 
 def rawFlows (c : Cfg) : List Flow := c.flows.filterMap (rawFlow c.ptypes c.flows)
 
 /-- B(cfg) -/
-def cfgBound (c : Cfg) : Nat := bound (rawFlows c)
+def cfgBound (c : Cfg) : Nat :=
+  match load c with
+  | .accept fls => bound fls         -- the loaded graphs
+  | _ => bound (rawFlows c)          -- the model refuses `c`: the graphs its connection lists describe
 
 def txnOk (b : Nat) : TxnObs → Bool
   | .ok n => n ≤ b
@@ -82,31 +85,11 @@ def holds (c : Cfg) (o : Obs) : Bool :=
   | .reject => o.txns.all (· == .notLoaded)
   | _ => false
 
-/-! ### classifiers of the known defect classes (the excluded hypotheses of the `_partial` theorems) -/
+/-! No defect class is open: F05a, F05b, F05c are repaired (`fixes/F05{a,b,c}.patch`); their former
+    witnesses are regression cases in `corpus/C05/regress-F05*.ops`. -/
 
-/-- F05a: an accepted configuration with a response direction that the cycle check run from EVERY node
-    would refuse (the loader only runs it from the root's edges) -/
-def f05a (c : Cfg) : Bool :=
-  match load c with
-  | .accept fls => fls.any fun f => !noCycleAnywhere f.res
-  | _ => false
-
-/-- F05b: some flow references another flow (mutual references make `incorporateFlow` recurse for ever) -/
-def f05b (c : Cfg) : Bool := !c.flows.all (·.refFree)
-
-/-- F05c: a quota file with a null list entry (dereferenced before validation) -/
-def f05c (c : Cfg) : Bool :=
-  c.qfiles.any fun f => f.quotas.any (·.null) || f.internals.any (·.null)
-
-/-- finding id for a history that violates the property -/
-def classify (c : Cfg) (o : Obs) : String :=
-  match o.load with
-  | .crash => if f05b c then "F05b" else "-"
-  | .timeout => if f05b c then "F05b" else "-"
-  | .panic => if f05c c then "F05c" else "-"
-  | .accept true =>
-    if o.txns.any (fun t => t == .crash || t == .timeout) && f05a c then "F05a" else "-"
-  | _ => "-"
+/-- the flows of a configuration that use no flow reference (scope of `rawFlows_eq`) -/
+def refFree (c : Cfg) : Bool := c.flows.all (·.refFree)
 
 /-! ### what the model observes -/
 
@@ -114,7 +97,6 @@ def modelLoadObs (c : Cfg) : LoadObs :=
   match load c with
   | .accept _ => .accept true
   | .reject _ => .reject
-  | .panic _ => .panic
   | .crash => .crash
 
 def resObs (r : TxnRes) : TxnObs :=
